@@ -138,6 +138,20 @@ REG['C16'] = dict(
          'np.quantile linear interpolation. Defect found and fixed: sentinel 1000 broke lines with > 1000 frames.',
     technique='Lean 4 proof (range/definedness lemmas over ordered fields; softmax identities over R) + differential correspondence',
     ref='§5-C16')
+REG['C17'] = dict(
+    text='Lean 4 theorems over a model of the resume protocol whose configuration (consulted folders, stem matcher, write order, '
+         'guarded statistics) is REGENERATED from parse_folder.py on every run: for every batch with distinct recoverable ids, every '
+         'subset of output kinds and EVERY sequence of kills between two writes (any length), the final resume leaves exactly the '
+         'requested outputs of every page; every page counted as processed after a kill is complete; complete pages are not '
+         'processed again (when a consulted kind is requested); a run with nothing to do exits cleanly; ids with dots / extension '
+         'substrings are recovered exactly. Four cfg_* obligations are the only places that evaluate the generated constants. '
+         'Correspondence: the real main() in-process on a stub pipeline with a kill injected before every file-creating call, all '
+         'crash points, sequences of crashes; the model predicts every interrupted write sequence and the final listing (exact). '
+         'Known finding: crops-only configuration re-processes complete pages.',
+    note='Trusted: a completed write is atomic and durable, kills happen between writes (as the property states); the OS; the ast '
+         'translator (validated by the exact crash-enumeration correspondence); timestamps ignored when comparing contents.',
+    technique='Lean 4 proof (prefix invariant over crash histories) over a generated configuration + crash-enumeration correspondence',
+    ref='§5-C17')
 REG['C19'] = dict(
     text='Lean 4 theorems over the merge fold of merge_ocr_results.py: if some engine has positive mean confidence the merged '
          'line takes transcription, logits, character table AND recorded confidence from the same engine, the first one attaining '
